@@ -9,7 +9,6 @@ as module state is concerned.
 import os
 import pickle
 import shutil
-import struct
 import sys
 import tempfile
 import traceback
@@ -17,31 +16,68 @@ import traceback
 PARAM_TOKEN = '@PARAM'
 
 
-def _send(fd, obj):
-    data = pickle.dumps(obj, protocol=4)
-    os.write(fd, struct.pack('<Q', len(data)))
-    off = 0
-    while off < len(data):
-        off += os.write(fd, data[off:off + 65536])
+def write_blob(path, data):
+    """Regular-file I/O at os level: not seen by the file-layer seam and,
+    unlike pipe reads, free of timing-dependent chunking (keeps the heap, and
+    with it native object addresses, a pure function of the job)."""
+    fd = os.open(path, os.O_WRONLY | os.O_CREAT | os.O_TRUNC, 0o600)
+    try:
+        off = 0
+        while off < len(data):
+            off += os.write(fd, data[off:])
+    finally:
+        os.close(fd)
 
 
-def _recvn(fd, n):
-    buf = b''
-    while len(buf) < n:
-        chunk = os.read(fd, n - len(buf))
-        if not chunk:
-            raise EOFError('reference pipe closed')
-        buf += chunk
-    return buf
+def read_blob(path):
+    fd = os.open(path, os.O_RDONLY)
+    try:
+        size = os.fstat(fd).st_size
+        data = os.read(fd, size)
+        while len(data) < size:
+            more = os.read(fd, size - len(data))
+            if not more:
+                break
+            data += more
+        return data
+    finally:
+        os.close(fd)
 
 
-def _recv(fd):
-    (n,) = struct.unpack('<Q', _recvn(fd, 8))
-    return pickle.loads(_recvn(fd, n))
+def _token(fd):
+    os.write(fd, b'x')
+
+
+def _wait_token(fd):
+    b = os.read(fd, 1)
+    if not b:
+        raise EOFError('reference pipe closed')
+    return b
 
 
 def materialise_options(options, param_path):
     return [param_path if o == PARAM_TOKEN else o for o in options]
+
+
+def canonical_addresses():
+    """Give identity hashes one fixed, legal allocation pattern so that the
+    reference is a function of (content, options) even when the code under
+    test lets results depend on addresses.  (The self-test compares these
+    references with a completely unpatched one-shot interpreter.)"""
+    import importlib
+    import pkgutil
+    import propka
+    from sim import seams
+    mods = []
+    for m in pkgutil.iter_modules(propka.__path__):
+        if not m.name.startswith('_'):
+            try:
+                mods.append(importlib.import_module('propka.' + m.name))
+            except Exception:
+                pass
+    seam = seams.AddressSeam()
+    seam.set_layout('compact', 0)
+    seam.install(mods)
 
 
 def compute_reference(req, base_tmp):
@@ -49,6 +85,8 @@ def compute_reference(req, base_tmp):
     everything."""
     from sim import record
     import propka.run
+    if not req.get('pure'):
+        canonical_addresses()
     d = tempfile.mkdtemp(prefix='ref-', dir=base_tmp)
     try:
         os.chdir(d)
@@ -77,7 +115,7 @@ def compute_reference(req, base_tmp):
         shutil.rmtree(d, ignore_errors=True)
 
 
-def _child(req, wfd, base_tmp):
+def _child(req, respath, base_tmp):
     try:
         devnull = os.open(os.devnull, os.O_WRONLY)
         os.dup2(devnull, 1)
@@ -88,38 +126,37 @@ def _child(req, wfd, base_tmp):
     except BaseException:
         res = ('harness-error', traceback.format_exc())
     try:
-        _send(wfd, res)
+        write_blob(respath, pickle.dumps(res, protocol=4))
     finally:
         os._exit(0)
 
 
-def _serve(rfd, wfd, base_tmp):
+def _serve(rfd, wfd, base_tmp, reqpath, respath):
     while True:
         try:
-            req = _recv(rfd)
+            tok = _wait_token(rfd)
         except EOFError:
             os._exit(0)
-        if req is None:
+        if tok == b'q':
             os._exit(0)
-        cr, cw = os.pipe()
+        req = pickle.loads(read_blob(reqpath))
+        try:
+            os.unlink(respath)
+        except OSError:
+            pass
         pid = os.fork()
         if pid == 0:
-            os.close(cr)
-            _child(req, cw, base_tmp)
-        os.close(cw)
-        try:
-            res = _recv(cr)
-        except EOFError:
-            res = ('harness-error', 'reference child died')
-        os.close(cr)
+            _child(req, respath, base_tmp)
         os.waitpid(pid, 0)
-        _send(wfd, res)
+        _token(wfd)
 
 
 class RefServer:
     def __init__(self, base_tmp):
         self.cache = {}
         self.computed = 0
+        self.reqpath = os.path.join(base_tmp, 'ref-req.bin')
+        self.respath = os.path.join(base_tmp, 'ref-res.bin')
         req_r, req_w = os.pipe()
         res_r, res_w = os.pipe()
         pid = os.fork()
@@ -127,7 +164,7 @@ class RefServer:
             os.close(req_w)
             os.close(res_r)
             try:
-                _serve(req_r, res_w, base_tmp)
+                _serve(req_r, res_w, base_tmp, self.reqpath, self.respath)
             finally:
                 os._exit(0)
         os.close(req_r)
@@ -137,9 +174,16 @@ class RefServer:
     def request(self, key, text, stem, options, param_text=None, suffix='.pdb'):
         if key in self.cache:
             return self.cache[key]
-        _send(self.w, {'text': text, 'stem': stem, 'options': list(options),
-                       'param_text': param_text, 'suffix': suffix})
-        status, res = _recv(self.r)
+        write_blob(self.reqpath, pickle.dumps(
+            {'text': text, 'stem': stem, 'options': list(options),
+             'param_text': param_text, 'suffix': suffix}, protocol=4))
+        _token(self.w)
+        _wait_token(self.r)
+        try:
+            status, res = pickle.loads(read_blob(self.respath))
+        except OSError:
+            status, res = 'harness-error', 'reference child died'
+
         if status != 'ok':
             raise RuntimeError('reference failed: ' + str(res))
         self.computed += 1
@@ -148,7 +192,7 @@ class RefServer:
 
     def close(self):
         try:
-            _send(self.w, None)
+            os.write(self.w, b'q')
             os.close(self.w)
             os.close(self.r)
             os.waitpid(self.pid, 0)
